@@ -7,7 +7,8 @@ SEND_BUF = 8          # survey.c per-pipe queue depth (checked against Gen/Const
 KEYS = {
     "surveyor-nb-recv-waits": "survey.c surv0_ctx_recv clamps the expiry of a NONBLOCK receive (timeout 0 < 1) to the survey deadline: nng_recvmsg(NNG_FLAG_NONBLOCK) on a surveyor with a live survey and no response waits until the deadline and retires the survey",
     "respondent-nb-send-eagain": "respond.c resp0_ctx_send calls nni_aio_start before looking at its state (and clears the send descriptor first): NONBLOCK send returns NNG_EAGAIN although a survey is pending and its pipe is idle; the descriptor stays cleared although a blocking send succeeds",
-    "respondent-writable-while-busy": "respond.c resp0_ctx_recv raises the send descriptor although the survey's pipe is still busy with the previous response: poll says writable, the send has to wait",
+    "respondent-writable-while-busy": "respond.c: the send descriptor is raised although the pipe of the socket's pending survey is busy (resp0_ctx_recv raising it unconditionally; a survey from a busy pipe replacing an unanswered one without clearing it; another context's response occupying the pipe): poll says writable, the send has to wait",
+    "respondent-second-send-panics": "respond.c resp0_ctx_send queues a context behind a busy pipe although its previous send is still queued there: nni_list_append of a linked node (NNI_ASSERT panic; list corruption and a lost aio without assertions)",
     "respondent-readable-after-close": "respond.c resp0_pipe_close removes the last pipe holding a survey without clearing the receive descriptor: poll says readable, NONBLOCK receive returns NNG_EAGAIN",
     "raw-nb-eagain": "msgqueue.c: NONBLOCK operation on a raw surveyor/respondent socket returned NNG_EAGAIN although the descriptor was raised (or succeeded although it was not)",
 }
@@ -429,7 +430,9 @@ def gen_respondent_case(rng, raw=False, nbfix=False, sbusyfix=False):
         lines.append("recvnb s0"); sim.recv("s0", None, True)
     for p in range(npipes):
         lines.append("sent p%d" % p); sim.sent(p, 0)
-    if rng.random() < 0.5:
+    # (closing the socket while a send is queued behind a busy pipe is a race in the library between the
+    #  reaper running pipe_close -- send completes with 0 -- and the context close -- NNG_ECLOSED: not scripted)
+    if rng.random() < 0.5 and all(v is None for v in sim.saio.values()):
         lines.append("close s0")
     return lines
 
@@ -717,6 +720,47 @@ def parse_backtrace(w, ttl, raw_pipe=None):
     return ("drop",)
 
 
+class Inbox:
+    """wire messages handed to the transport side that the protocol has not taken yet (a pipe whose
+    survey nobody has received is not re-armed); they are judged when the protocol takes them"""
+
+    def __init__(self):
+        self.q = {}
+        self.dropped = set()
+
+    def step(self, k, t, o, prev, classify, what):
+        """-> (error or None, [(pipe, wire, kind) taken in this observation])"""
+        if t[0] == "drop":
+            self.dropped.add(int(t[1][1:]))
+        if t[0] == "inject" and o["rv"] == 0:
+            self.q.setdefault(int(t[1][1:]), []).append(t[2])
+        taken = []
+        for p, q in self.q.items():
+            if not q:
+                continue
+            ps = o["pipes"].get(p, {})
+            isopen = ps.get("st") == "o"
+            left = ps.get("inbox", 0) if isopen else 0
+            n = len(q) - left
+            closed_by = None
+            for w in q[:max(n, 0)]:
+                kind = classify(w)
+                taken.append((p, w, kind))
+                if kind == "close":
+                    closed_by = w
+                    break
+            if closed_by is not None:
+                if isopen:
+                    return ((k, "%s (%s) did not disconnect its sender" % (what, closed_by)), taken)
+                self.q[p] = []
+                continue
+            was = prev["pipes"].get(p, {}).get("st") if prev else None
+            if t[0] == "inject" and int(t[1][1:]) == p and was == "o" and not isopen and p not in self.dropped:
+                return ((k, "a message that is not malformed closed the connection"), taken)
+            self.q[p] = q[n:] if isopen else []
+        return (None, taken)
+
+
 def oracle_respondent(case, obs, raw):
     ttl = 8
     survey_of = {}     # body tag -> (pipe, hdr hex)
@@ -725,6 +769,7 @@ def oracle_respondent(case, obs, raw):
     aio_target, pend_recv, pend_send = {}, {}, {}
     wire_seen = {}     # response body -> pipe
     expected_wire = {}  # response body -> (pipe, hdr) or None if it may be discarded
+    inbox = Inbox()
     for k, line in enumerate(case):
         t = line.split()
         o = obs[k] if k < len(obs) else None
@@ -744,21 +789,14 @@ def oracle_respondent(case, obs, raw):
             st = o["pipes"].get(o["newpipe"], {}).get("st")
             if (t[2] == "98") != (st == "o"):
                 return (k, "peer protocol %s: pipe state %s" % (t[2], st))
-        if op == "inject" and o["rv"] == 0:
-            p = int(t[1][1:])
-            res = parse_backtrace(t[2], ttl)
-            st = o["pipes"].get(p, {}).get("st")
-            was = prev["pipes"].get(p, {}).get("st") if prev else None
-            if res[0] == "close":
-                if st == "o":
-                    return (k, "a survey whose backtrace runs into a body shorter than 4 bytes did not disconnect its sender")
-            elif was == "o" and st != "o" and not (prev["pipes"][p].get("nt") and False):
-                return (k, "a %s survey closed the connection" % ("dropped (too many hops)" if res[0] == "drop" else "well-formed"))
-            if res[0] == "deliver":
+        err, taken = inbox.step(k, t, o, prev, lambda w: parse_backtrace(w, ttl)[0],
+                                "a survey whose backtrace runs into a body shorter than 4 bytes")
+        if err:
+            return err
+        for p, w, kind in taken:
+            if kind == "deliver":
+                res = parse_backtrace(w, ttl)
                 survey_of[res[2]] = (p, res[1])
-            else:
-                tag = t[2][-6:]
-                expect_gone.add(tag)
         if op == "recv":
             aio_target[int(t[2][1:])] = t[1]
         # --- deliveries
@@ -817,9 +855,12 @@ def oracle_respondent(case, obs, raw):
                     if rv == 11 and not nb and [e for (x, r, e) in o["done"] if x == a] != ["kept"]:
                         return (k, "failed send did not leave the message with the caller")
                 else:
-                    if rv == 11:
+                    queued_before = any(aio_target.get(x) == tg for x in pend_send if x != a)
+                    if rv == 11 and queued_before:
+                        pass        # refused while the context's previous response still waits for its pipe; the survey stays pending
+                    elif rv == 11:
                         return (k, "send failed with NNG_ESTATE although a survey is pending on %s" % tg)
-                    if nb and rv == 8:
+                    elif nb and rv == 8:
                         if idle or gone:
                             FOUND.add("respondent-nb-send-eagain", case, k, "NONBLOCK send returned NNG_EAGAIN although a survey is pending and its pipe is idle")
                         elif tg == "s0" and w == "1":
@@ -905,6 +946,7 @@ def oracle_respondent(case, obs, raw):
 
 
 def oracle_xsurveyor(case, obs):
+    inbox = Inbox()
     for k, line in enumerate(case):
         t = line.split()
         o = obs[k] if k < len(obs) else None
@@ -912,16 +954,10 @@ def oracle_xsurveyor(case, obs):
             return (k, "no observation")
         op = t[0]
         prev = obs[k - 1] if k > 0 else None
-        if op == "inject" and o["rv"] == 0:
-            p = int(t[1][1:])
-            res = parse_backtrace(t[2], 16)      # no ttl on this side: at most a full header (16 words)
-            st = o["pipes"].get(p, {}).get("st")
-            was = prev["pipes"].get(p, {}).get("st") if prev else None
-            if res[0] in ("close", "drop"):
-                if st == "o":
-                    return (k, "a malformed response (short body / header overflow) did not disconnect its sender")
-            elif was == "o" and st != "o":
-                return (k, "a well-formed response closed the connection")
+        err, taken = inbox.step(k, t, o, prev, lambda w: "deliver" if parse_backtrace(w, 16)[0] == "deliver" else "close",
+                                "a malformed response (short body / header overflow)")   # no ttl on this side: at most a full header (16 words)
+        if err:
+            return err
         if op == "recvnb":
             r = prev["poll"].get(0, ("x", "x"))[0] if prev else "x"
             if (r == "1" and o["rv"] == 8) or (r == "0" and o["rv"] == 0):
@@ -975,6 +1011,29 @@ def nb_recv_probe(impl):
             p.kill()
 
 
+PANIC_SCRIPT = ["open s0 respondent0", "conn s0 98", "inject p0 80000001aa01", "recvnb s0", "send s0 a0 - dd01",
+                "inject p0 80000002aa02", "recvnb s0", "send s0 a1 - dd02", "inject p0 80000003aa03", "recvnb s0",
+                "send s0 a2 - dd03", "sent p0", "sent p0", "sent p0"]
+
+
+def second_send_probe(impl):
+    """a context answers a second survey while its first response still waits for the busy pipe (run apart:
+    the pinned source panics).  Returns None if fine, else a description."""
+    o, crash = run_cases(impl, [PANIC_SCRIPT], timeout=60)
+    if crash is not None:
+        return "library aborted (rc=%s): %s" % (crash[1], san_summary(crash[2]) or "NNI_ASSERT in nni_list_append")
+    obs = [parse_line(x) for x in o[0]]
+    if len(obs) < len(PANIC_SCRIPT) or any(x is None for x in obs):
+        return "no observation"
+    done = {}
+    for x in obs:
+        for a, rv, e in x["done"]:
+            done[a] = rv
+    if done.get(0) != 0 or done.get(1) != 0 or done.get(2) not in (0, 11):
+        return "sends completed with %r (every accepted send must complete, a refused one with NNG_ESTATE)" % done
+    return None
+
+
 def run(tier, seed, replay=None):
     rep = Report("C07", tier, seed)
     assume = os.environ.get("C07_ASSUME_KNOWN", "")
@@ -986,8 +1045,9 @@ def run(tier, seed, replay=None):
         return rep.finish()
     rc, out, err = run_prog(model_bin("modeld_c07"), "", args=["--flags"])
     flags = out[0].strip() if out else "000000"
-    rep.cov["repairs_in_source"] = dict(zip(["surv_nbrecv", "resp_nb", "resp_wbusy", "resp_rclose", "msgq_nb", "msgq_resize"], flags))
-    nbfix = flags[0] == "1"
+    rep.cov["repairs_in_source"] = dict(zip(["surv_nbrecv", "resp_nb", "resp_wbusy", "resp_rclose", "msgq_nb", "msgq_resize", "resp_sbusy", "resp_wother", "resp_wstale"], flags))
+    flags = (flags + "000000000")[:9]
+    nbfix, rnbfix, sbusyfix = flags[0] == "1", flags[1] == "1", flags[6] == "1"
     rng = random.Random(seed)
     n = 150 if tier == "quick" else 5000
     if replay:
@@ -999,7 +1059,7 @@ def run(tier, seed, replay=None):
             if m < 5:
                 cases.append(gen_surveyor_case(rng, nbfix))
             elif m < 8:
-                cases.append(gen_respondent_case(rng, raw=False))
+                cases.append(gen_respondent_case(rng, raw=False, nbfix=rnbfix, sbusyfix=sbusyfix))
             elif m < 9:
                 cases.append(gen_respondent_case(rng, raw=True))
             else:
@@ -1013,6 +1073,10 @@ def run(tier, seed, replay=None):
         if dt > 0.6 or rv != 8 or after:
             FOUND.add("surveyor-nb-recv-waits", ["open s0 surveyor0", "conn s0 99", "setopt s0 surveyor:survey-time ms 1200", "sendnb s0 - aa01", "recvnb s0", "recv s0 a1"], 4,
                       "nng_recvmsg(NONBLOCK) on a surveyor with a live survey took %.2f s and returned %s; the blocking receive after it completed with %s (survey retired)" % (dt, rv, after))
+        bad = second_send_probe(impl)
+        rep.cov["second_send_probe"] = bad or "ok"
+        if bad:
+            FOUND.add("respondent-second-send-panics", PANIC_SCRIPT, 10, bad)
     for key, (case, k, text) in sorted(FOUND.hits.items()):
         p = rep.replay_file("finding_%s.case" % key, "# %s\n# at op %d: %s\n" % (text, k, case[min(k, len(case) - 1)]) + "\n".join(case) + "\n")
         rep.violation(p, "SURVEY: %s (op %d: %s) -- %s" % (text, k, case[min(k, len(case) - 1)][:80], KEYS[key][:160]), key=key)
